@@ -116,6 +116,116 @@ pub trait VK<'b, T: Elem> {
     fn take_boxed(self: Box<Self>) -> Option<BumpBox<'b, [T]>> {
         None
     }
+    /// `map` / `map_in_place` to another element type (`sel % 4`: `T::MapA/B/C/Big`; `sel / 4 % 2`: `map_in_place`
+    /// or `try_map` where both exist), then `fill` pushes into the result, which is dropped before returning
+    fn map_cross(self: Box<Self>, _sel: u8, _fill: u8) -> Option<MapOut> {
+        None
+    }
+}
+
+/// what a size-changing map produced (the result itself is gone when this is returned)
+#[derive(Debug, Default)]
+pub struct MapOut {
+    pub api: &'static str,
+    pub u_name: &'static str,
+    pub u_zst: bool,
+    pub u_size: usize,
+    pub in_place: bool,
+    pub alloc_err: bool,
+    pub mapped: Vec<u32>,
+    pub len: usize,
+    pub ptr: usize,
+    pub cap: usize,
+    pub pushed: usize,
+    pub after_fill: Vec<u32>,
+    pub ptr_after_fill: usize,
+}
+
+fn mapf<T: Elem, U: Elem>(e: T) -> U {
+    tick("map");
+    U::make(e.val().wrapping_add(1))
+}
+
+fn map_out<U: Elem>(api: &'static str, in_place: bool, s: &[U], cap: usize) -> MapOut {
+    MapOut {
+        api,
+        u_name: U::NAME,
+        u_zst: U::ZST,
+        u_size: std::mem::size_of::<U>(),
+        in_place,
+        alloc_err: false,
+        mapped: s.iter().map(|e| e.val()).collect(),
+        len: s.len(),
+        ptr: s.as_ptr() as usize,
+        cap,
+        ..MapOut::default()
+    }
+}
+
+/// number of pushes after a map: odd `fill` = up to the reported capacity (at most 64) plus `extra`, even = a few
+fn fill_count(fill: u8, len: usize, cap: usize, extra: usize) -> usize {
+    if fill % 2 == 1 { cap.saturating_sub(len).min(64) + extra } else { fill as usize / 2 % 4 }
+}
+
+fn out_boxed<U: Elem>(api: &'static str, b: BumpBox<'_, [U]>) -> MapOut {
+    let mut o = map_out(api, true, &b, b.len());
+    o.after_fill = o.mapped.clone();
+    o.ptr_after_fill = o.ptr;
+    o
+}
+
+fn out_fixed<U: Elem>(api: &'static str, mut v: FixedBumpVec<'_, U>, fill: u8) -> MapOut {
+    let mut o = map_out(api, true, &v, v.capacity());
+    for _ in 0..fill_count(fill, o.len, o.cap, 1) {
+        if v.try_push(U::make(99)).is_err() {
+            break;
+        }
+        o.pushed += 1;
+    }
+    o.after_fill = v.iter().map(|e| e.val()).collect();
+    o.ptr_after_fill = v.as_ptr() as usize;
+    o
+}
+
+fn out_vec<U: Elem, A: bump_scope::traits::BumpAllocatorTyped>(api: &'static str, in_place: bool, mut v: BumpVec<U, A>, fill: u8) -> MapOut {
+    let mut o = map_out(api, in_place, &v, v.capacity());
+    for _ in 0..fill_count(fill, o.len, o.cap, 1) {
+        if v.try_push(U::make(99)).is_err() {
+            break;
+        }
+        o.pushed += 1;
+    }
+    o.after_fill = v.iter().map(|e| e.val()).collect();
+    o.ptr_after_fill = v.as_ptr() as usize;
+    if fill / 8 % 3 == 0 {
+        // give the (possibly re-typed) buffer back through the shrinking path as well
+        v.shrink_to_fit();
+    }
+    o
+}
+
+fn out_mut<U: Elem, A: bump_scope::traits::MutBumpAllocatorTyped>(api: &'static str, mut v: MutBumpVec<U, A>, fill: u8) -> MapOut {
+    let mut o = map_out(api, true, &v, v.capacity());
+    for _ in 0..fill_count(fill, o.len, o.cap, 1) {
+        if v.try_push(U::make(99)).is_err() {
+            break;
+        }
+        o.pushed += 1;
+    }
+    o.after_fill = v.iter().map(|e| e.val()).collect();
+    o.ptr_after_fill = v.as_ptr() as usize;
+    o
+}
+
+/// `same_bucket(a, b)` of the generated `dedup_by` calls (`a` = the candidate, `b` = the last retained element):
+/// an equivalence, a symmetric but non-transitive relation, and an asymmetric one - the latter two tell whether
+/// the implementation compares with the last *retained* element and in std's argument order
+pub fn dedup_rel(a: u32, b: u32, m: u32) -> bool {
+    match m {
+        1 => a % 2 == b % 2,
+        2 => a.abs_diff(b) <= 1,
+        _ => a <= b,
+    }
 }
 
 fn rng(r: &R2) -> (Bound<usize>, Bound<usize>) {
@@ -228,7 +338,7 @@ macro_rules! common_ops {
                     let m = *m;
                     $self.dedup_by(|a, b| {
                         tick("dedup-by");
-                        a.val() % m == b.val() % m
+                        dedup_rel(a.val(), b.val(), m)
                     });
                     Some(Res::Unit)
                 },
@@ -485,6 +595,13 @@ impl<'a: 'b, 'b, T: Elem + Clone + PartialEq> VK<'b, T> for KBoxed<'a, T> {
     fn take_boxed(self: Box<Self>) -> Option<BumpBox<'b, [T]>> {
         Some(self.0)
     }
+    fn map_cross(self: Box<Self>, sel: u8, _fill: u8) -> Option<MapOut> {
+        Some(match sel % 4 {
+            0 | 3 => out_boxed("BumpBox::map_in_place", self.0.map_in_place(mapf::<T, T::MapA>)),
+            1 => out_boxed("BumpBox::map_in_place", self.0.map_in_place(mapf::<T, T::MapB>)),
+            _ => out_boxed("BumpBox::map_in_place", self.0.map_in_place(mapf::<T, T::MapC>)),
+        })
+    }
     fn len(&self) -> usize {
         self.0.len()
     }
@@ -546,6 +663,13 @@ pub struct KFixed<'a, T: Elem>(pub FixedBumpVec<'a, T>);
 impl<'a: 'b, 'b, T: Elem + Clone + PartialEq> VK<'b, T> for KFixed<'a, T> {
     fn kind(&self) -> KindId {
         KindId::Fixed
+    }
+    fn map_cross(self: Box<Self>, sel: u8, fill: u8) -> Option<MapOut> {
+        Some(match sel % 4 {
+            0 | 3 => out_fixed("FixedBumpVec::map_in_place", self.0.map_in_place(mapf::<T, T::MapA>), fill),
+            1 => out_fixed("FixedBumpVec::map_in_place", self.0.map_in_place(mapf::<T, T::MapB>), fill),
+            _ => out_fixed("FixedBumpVec::map_in_place", self.0.map_in_place(mapf::<T, T::MapC>), fill),
+        })
     }
     fn len(&self) -> usize {
         self.0.len()
@@ -611,6 +735,26 @@ pub struct KVec<T: Elem, A: bump_scope::traits::BumpAllocatorTyped>(pub BumpVec<
 impl<'a: 'b, 'b, T: Elem + Clone + PartialEq, A: BumpAllocatorTypedScope<'a> + Copy + 'b> VK<'b, T> for KVec<T, A> {
     fn kind(&self) -> KindId {
         KindId::Vec
+    }
+    fn map_cross(self: Box<Self>, sel: u8, fill: u8) -> Option<MapOut> {
+        fn fits<T, U>() -> bool {
+            use std::mem::{align_of, size_of};
+            size_of::<T>() != 0 && size_of::<U>() != 0 && align_of::<T>() >= align_of::<U>() && size_of::<T>() >= size_of::<U>()
+        }
+        fn err() -> MapOut {
+            MapOut { api: "BumpVec::try_map", alloc_err: true, ..MapOut::default() }
+        }
+        const MIP: &str = "BumpVec::map_in_place";
+        const MAP: &str = "BumpVec::try_map";
+        Some(match (sel / 4 % 2, sel % 4) {
+            (0, 0) | (0, 3) => out_vec(MIP, true, self.0.map_in_place(mapf::<T, T::MapA>), fill),
+            (0, 1) => out_vec(MIP, true, self.0.map_in_place(mapf::<T, T::MapB>), fill),
+            (0, _) => out_vec(MIP, true, self.0.map_in_place(mapf::<T, T::MapC>), fill),
+            (_, 0) => self.0.try_map(mapf::<T, T::MapA>).map(|v| out_vec(MAP, fits::<T, T::MapA>(), v, fill)).unwrap_or_else(|_| err()),
+            (_, 1) => self.0.try_map(mapf::<T, T::MapB>).map(|v| out_vec(MAP, fits::<T, T::MapB>(), v, fill)).unwrap_or_else(|_| err()),
+            (_, 2) => self.0.try_map(mapf::<T, T::MapC>).map(|v| out_vec(MAP, fits::<T, T::MapC>(), v, fill)).unwrap_or_else(|_| err()),
+            (_, _) => self.0.try_map(mapf::<T, T::MapBig>).map(|v| out_vec(MAP, fits::<T, T::MapBig>(), v, fill)).unwrap_or_else(|_| err()),
+        })
     }
     fn len(&self) -> usize {
         self.0.len()
@@ -692,6 +836,13 @@ pub struct KMut<T: Elem, A>(pub MutBumpVec<T, A>);
 impl<'a: 'b, 'b, T: Elem + Clone + PartialEq, A: MutBumpAllocatorTypedScope<'a> + 'b> VK<'b, T> for KMut<T, A> {
     fn kind(&self) -> KindId {
         KindId::MutVec
+    }
+    fn map_cross(self: Box<Self>, sel: u8, fill: u8) -> Option<MapOut> {
+        Some(match sel % 4 {
+            0 | 3 => out_mut("MutBumpVec::map_in_place", self.0.map_in_place(mapf::<T, T::MapA>), fill),
+            1 => out_mut("MutBumpVec::map_in_place", self.0.map_in_place(mapf::<T, T::MapB>), fill),
+            _ => out_mut("MutBumpVec::map_in_place", self.0.map_in_place(mapf::<T, T::MapC>), fill),
+        })
     }
     fn len(&self) -> usize {
         self.0.len()
